@@ -1389,6 +1389,12 @@ class SampleSet(abc.Iterable, abc.Sized):
             return self  # we're done!
 
         if vartype is Vartype.SPIN and self.vartype is Vartype.BINARY:
+            if self.record.sample.dtype.kind in 'ub':
+                # unsigned and boolean samples cannot hold -1: give the sample field a signed type
+                dt = self.record.dtype
+                signed = np.result_type(self.record.sample.dtype, np.int8)
+                self._record = self.record.astype(
+                    [(n, signed if n == 'sample' else dt[n].base, dt[n].shape) for n in dt.names]).view(np.recarray)
             self.record.sample = 2 * self.record.sample - 1
             self._vartype = vartype
         elif vartype is Vartype.BINARY and self.vartype is Vartype.SPIN:
